@@ -126,7 +126,13 @@ func vfC15(w *vfWorld) {
 		method := methods[t.Choice("c15.method", len(methods))]
 		q := queries[t.Choice("c15.query", len(queries))]
 		effPath := path
-		req := &vfReq{Method: method, Target: path + q, NoJar: true}
+		// some spellings percent-encode one ordinary character of the path (%61 for "a"): it is the same path, the one the
+		// upstream receives, and the rules are about the path - not about its spelling on the wire
+		wire := path
+		if path != pp+"/auth" && t.Prob("c15.pct", 120) {
+			wire = vfC15PctOne(t, path)
+		}
+		req := &vfReq{Method: method, Target: wire + q, NoJar: true}
 		if cfg.ReverseProxy && t.Prob("c15.fwduri", 400) {
 			// documented: in reverse-proxy mode the effective URI is X-Forwarded-Uri
 			fp := "/" + segs[t.Choice("c15.seg", len(segs))]
@@ -138,7 +144,11 @@ func vfC15(w *vfWorld) {
 			case 2:
 				fq = fq + frags[t.Choice("c15.frag", len(frags))]
 			}
-			req.Headers = append(req.Headers, [2]string{"X-Forwarded-Uri", fp + fq})
+			fwire := fp
+			if t.Prob("c15.pct", 120) {
+				fwire = vfC15PctOne(t, fp)
+			}
+			req.Headers = append(req.Headers, [2]string{"X-Forwarded-Uri", fwire + fq})
 			effPath = fp
 		} else if !cfg.ReverseProxy && t.Prob("c15.fwduri-ignored", 150) {
 			req.Headers = append(req.Headers, [2]string{"X-Forwarded-Uri", "/public"})
@@ -331,4 +341,24 @@ func vfC15(w *vfWorld) {
 		}
 	}
 	w.distKey = fmt.Sprintf("%v/%v/%v/%v", cs.Routes, cs.Trusted, cs.Preflight, cs.ReverseProxy)
+}
+
+// vfC15PctOne percent-encodes one letter, digit, '-' or '.' of path (never a slash or a character with a meaning of its own).
+func vfC15PctOne(t *vfTape, path string) string {
+	var pos []int
+	for i := 0; i < len(path); i++ {
+		c := path[i]
+		if c >= 'a' && c <= 'z' || c >= 'A' && c <= 'Z' || c >= '0' && c <= '9' || c == '-' || c == '.' {
+			pos = append(pos, i)
+		}
+	}
+	if len(pos) == 0 {
+		return path
+	}
+	i := pos[t.Choice("c15.pct-pos", len(pos))]
+	hex := "%%%02X"
+	if t.Bool("c15.pct-lower") {
+		hex = "%%%02x"
+	}
+	return path[:i] + fmt.Sprintf(hex, path[i]) + path[i+1:]
 }
